@@ -212,10 +212,12 @@ class World:
             raise Inconclusive("monitor connection closed by the server")
         except wire.Timeout:
             raise Inconclusive("monitor barrier timed out")
+        seen_cids = set()
         for n in targets:
             cid = self.model.owner.get(n)
-            if cid is None or cid not in self.clients:
+            if cid is None or cid not in self.clients or cid in seen_cids:
                 continue
+            seen_cids.add(cid)  # without a snapshot a client may be addressed under its old and its new nick
             c = self.clients[cid]
             try:
                 lines = c.read_until(lambda m: m.verb == "PRIVMSG" and m.params[-1:] == [tag]
@@ -441,13 +443,8 @@ class World:
         del self.clients[cid]
         self.disconnected.add(nick)
         # poll until the nick is gone (bounded)
-        if self.srv.hooks and nick is not None:
-            deadline = time.monotonic() + 5.0
-            while time.monotonic() < deadline:
-                s = self.srv.snap()
-                if nick not in s["users"]:
-                    break
-                time.sleep(0.002)
+        if nick is not None:
+            self.wait_gone([nick])
         return self.finish_step(None, exp, [], pre, None, ended=cid)
 
     def end_many(self, cids, hows):
@@ -474,14 +471,28 @@ class World:
         for cid, nick in zip(cids, nicks):
             del self.clients[cid]
             self.disconnected.add(nick)
-        if self.srv.hooks:
-            deadline = time.monotonic() + 5.0
-            while time.monotonic() < deadline:
+        self.wait_gone([n for n in nicks if n is not None])
+        return self.finish_step(None, exp, [], pre, None)
+
+    def wait_gone(self, nicks, bound=5.0):
+        """after a client side ending: wait (bounded) until the server has forgotten the nicks; by snapshot if
+        the hook is there, else by ISON from the monitor client"""
+        deadline = time.monotonic() + bound
+        while time.monotonic() < deadline:
+            if self.srv.hooks:
                 s = self.srv.snap()
                 if not any(n in s["users"] for n in nicks):
-                    break
-                time.sleep(0.002)
-        return self.finish_step(None, exp, [], pre, None)
+                    return True
+            else:
+                self.mon.send("ISON " + " ".join(nicks))
+                try:
+                    lines = self.mon.read_until(lambda m: m.verb == "303", 5.0)
+                except (wire.Closed, wire.Timeout):
+                    return False
+                if not lines[-1].params[-1].split():
+                    return True
+            time.sleep(0.003)
+        return False
 
     def settle(self, cid, exp, pre):
         return self.finish_step(None, exp, [], pre, None)
